@@ -42,22 +42,22 @@ macro_rules! entry {
 }
 
 const TABLE: &[Entry] = &[
-    entry!("C01", "model_checking", 50, 1500, c01),
+    entry!("C01", "model_checking", 110, 1500, c01),
     entry!("C02", "exploration", 120, 3000, c02),
-    entry!("C03", "model_checking", 50, 1500, c03),
-    entry!("C04", "exploration", 55, 1500, c04),
-    entry!("C05", "model_checking", 55, 1500, c05),
-    entry!("C06", "model_checking", 50, 1500, c06),
-    entry!("C07", "exploration", 55, 1500, c07),
-    entry!("C08", "exploration", 50, 1500, c08),
-    entry!("C09", "model_checking", 50, 1500, c09),
-    entry!("C10", "exploration", 50, 1500, c10),
-    entry!("C11", "exploration", 50, 1500, c11),
-    entry!("C12", "fault_enumeration", 50, 600, c12),
+    entry!("C03", "model_checking", 110, 1500, c03),
+    entry!("C04", "exploration", 110, 1500, c04),
+    entry!("C05", "model_checking", 110, 1500, c05),
+    entry!("C06", "model_checking", 110, 1500, c06),
+    entry!("C07", "exploration", 110, 1500, c07),
+    entry!("C08", "exploration", 110, 1500, c08),
+    entry!("C09", "model_checking", 110, 1500, c09),
+    entry!("C10", "exploration", 110, 1500, c10),
+    entry!("C11", "exploration", 110, 1500, c11),
+    entry!("C12", "fault_enumeration", 110, 600, c12),
     entry!("C13", "exploration", 120, 3000, c13),
-    entry!("C14", "exploration", 50, 1500, c14),
-    entry!("C15", "exploration", 50, 900, c15),
-    entry!("C16", "model_checking", 50, 1500, c16),
+    entry!("C14", "exploration", 110, 1500, c14),
+    entry!("C15", "exploration", 110, 900, c15),
+    entry!("C16", "model_checking", 110, 1500, c16),
 ];
 
 pub fn dispatch(prop: &str, tier: Tier, replay: Option<&str>) -> i32 {
